@@ -68,9 +68,9 @@ Definition cons_full (st : store) (w : op) : bool :=
 
 (* ------------------------------------------------------------------ clause 22 *)
 (* the record shows the admitted objects: the same names, and for each the parent, is-parent,
-   tree id, min and max of the admitted object (the allow-force-update / is-root flags and the
-   guaranteed annotation are not compared: an update that changes nothing else is admitted
-   unchecked and reaches the record only through the informer) *)
+   tree id, min and max of the admitted object (the guaranteed annotation is not compared: an
+   update that changes nothing else is admitted unchecked and reaches the record only through
+   the informer; the two exempting labels are part of the checked fields, see Model.fields_eq) *)
 Definition shows (i : info) (q : quota) : bool :=
   (i_parent i =? parent_name q) && Bool.eqb (i_is_parent i) (q_is_parent q)
   && (i_tree i =? q_tree q) && eq_res (i_min i) (q_min q) && eq_res (i_max i) (q_max q).
@@ -173,17 +173,3 @@ Fixpoint ehist_code (j : judge) (prev : topo) (es : list event) (tr : list (Z * 
 Definition eprop_code (g : bool * bool) (es : list event) (tr : list (Z * topo)) : Z :=
   ehist_code (init_judge g) (init_topo g) es tr.
 
-(* ------------------------------------------------------------------ the stated restriction *)
-(* ValidUpdateQuota admits an update unchecked when parent / is-parent / tree-id labels, the
-   namespaces annotation and the spec are unchanged. Such an update may still switch the
-   allow-force-update or is-root label off, and once that reaches the record (informer) a tree
-   that was only acceptable under the label is no longer well formed. Histories in which no
-   such unchecked update changes the two labels: *)
-Definition flag_stable_op (w : op) : bool :=
-  match w with
-  | Update o n => negb (fields_eq o n)
-                  || (Bool.eqb (q_force o) (q_force n) && Bool.eqb (q_tree_root o) (q_tree_root n))
-  | _ => true
-  end.
-Definition flag_stable_ev (e : event) : bool :=
-  match e with EReq r => flag_stable_op (snd r) | EInf r => flag_stable_op (snd r) end.
